@@ -279,6 +279,10 @@ SEEDS = {
  # ---- round 6 (eight properties, 50-minute agents)
  "S-C01-6": ("C01", "DensityMatrix.apply_measurement decides whether a forced outcome is possible with `p > 0` instead of `not isclose(p, 0)`",
              "density-matrix backend, forced setting, the forced value being the impossible outcome of a qubit that returned to a basis state through interference (H H, a Bell pair uncomputed: p ~ 1e-34 instead of 0)"),
+ "S-C04-6": ("C04", "EvolutionarySolver.remove_op (caller-chosen node) protects `get_node_by_labels(['Fixed', 'Input', 'Output'])` - nodes carrying ALL three labels, i.e. none",
+             "the caller-chosen form of the remove move pointed at an emission CNOT or a measure-and-reset placed at initialisation: it is removed"),
+ "S-C05-6": ("C05", "run_circuit looks P / P_dag up in a mutable default dict and overwrites its entries for reverse runs (never restored)",
+             "a reverse run earlier in the process (any StabilizerTableau -> CliffordTableau conversion), then a fidelity whose first state needs a phase gate in its inverse circuit: F(a, a) = 0; also caught by C07 (forward and reverse circuit runs interleaved)"),
  "S-C06-6": ("C06", "transformation.y_gate rewritten as one pass `phase ^= x | z` (should be x ^ z: a row with a Y on the qubit commutes with Y)",
              "a Y-type error (PauliError('Y'), the Y branch of depolarizing noise, a SigmaY gate) on a qubit that holds a Y component in a stabilizer row; also caught by C07 (GroupOK) and C01 (StateOK)"),
  "S-C09-6": ("C09", "get_stabilizer_tableau_from_graph builds the adjacency matrix with nodelist=sorted(graph.nodes) while converter_gate_list keeps insertion order",
@@ -291,6 +295,7 @@ SEEDS = {
              "Infidelity / TraceDistance with a density-matrix target and a stabilizer state that has a Y-type generator: the state is converted to the real part of its matrix"),
 }
 STRENGTHENED = {
+ "S-C05-6": "the comparisons are interleaved with what else a process does with the library (tableau conversions, which run synthesised circuits backwards, a forward circuit run, a graph tableau) - the C05 harness had built every tableau itself and never called them",
  "S-C09-6": "lc_check on the same pairs handed over as graphs with a shuffled node insertion order (position view unchanged)",
  "S-C02-5": "every third 3-5 vertex target also as a stabilizer state in a random gauge with signed generators (products of the textbook ones), built independently",
  "S-C03-5": "emitter_sorted on pools of 6-vertex graphs most of which have a cut block with different real and GF(2) rank",
